@@ -1,6 +1,7 @@
 """C04 — results do not depend on the alpha tuning factors."""
 from ..runner import Stream
 from .. import gen
+from .. import params_streams
 
 RULE = ("algalpha_all x alpha alpha_y alpha_z over the algorithms that read a tuning factor (lmo5, lmo_parallel, dr64, dr128raw, "
         "gourdon64, gourdon128raw): full 3-decimal grid in [0, 2*x^(1/6)] for small x, endpoints/dense-near-1 + seeded sample beyond; "
@@ -101,4 +102,7 @@ def streams(ctx):
                     dis.append(dict(index=i, op=o, impl=a, model="ordering x13<y<=z<sqrt, 1<=x_star<=y violated", monitor=True))
         return dis
     st2 = Stream("parameter_derivation", pops, oracle=False, model_ops=model_ops, judge=pjudge, timeout=600)
-    return [st1, st2]
+    return [st1, st2] + params_streams.c04_streams(ctx)
+
+
+search = params_streams.params_search
